@@ -160,17 +160,40 @@ def wantBits (kinds : List Kind) (minIdx : Nat) (r : RawPep) : List Nat :=
 
 def blankRaw : RawPep := ⟨[], [], none, none, 0⟩
 
+/-- the stored masses grouped by peptide index (one pass; indices ≥ np are dropped, they are reported
+    separately) -/
+def groupByPep (np : Nat) (impl : List (Nat × Nat)) : Array (List Nat) :=
+  impl.foldl (fun (acc : Array (List Nat)) f => if f.1 < acc.size then acc.modify f.1 (f.2 :: ·) else acc)
+    (Array.replicate np [])
+
+def sameForm (a b : RawPep) : Bool :=
+  a.seq == b.seq && a.mods == b.mods && a.nterm == b.nterm && a.cterm == b.cterm && a.mass == b.mass
+
 /-- per peptide index: compare what is stored under it with the definition for that peptide and name
-    the two recognisable failure shapes (an ion of another peptide; the first ions of every series
-    missing / present as if `min_ion_index` had another value) -/
-def perPeptide (kinds : List Kind) (minIdx : Nat) (raws : List RawPep) (impl : List (Nat × Nat)) : Option String :=
+    the recognisable failure shapes: the ions of an isomer (same sequence, same mass, other modification
+    vector); an ion of another peptide; the first ions of every series missing / present as if
+    `min_ion_index` had another value -/
+def perPeptide (kinds : List Kind) (minIdx : Nat) (raws : List RawPep) (groups : Array (List Nat))
+    (wants : Array (List Nat)) : Option String :=
   let np := raws.length
-  let wants := raws.map (wantBits kinds minIdx)
+  let rawsA := raws.toArray
   (List.range np).findSome? (fun i =>
-    let r := raws.getD i blankRaw
-    let got := ((impl.filter (fun f => f.1 == i)).map (·.2)).mergeSort leNat
+    let r := rawsA.getD i blankRaw
+    let got := groups.getD i []
     let want := wants.getD i []
     if got == want then none else
+    -- nearest neighbours first (the list is usually in database order), then everybody
+    let cands := ((List.range 8).flatMap (fun d => [i - (d + 1), i + d + 1])).filter (fun j => j < np && j != i)
+    match cands.find? (fun j =>
+        let rj := rawsA.getD j blankRaw
+        rj.seq == r.seq && rj.mass == r.mass && !sameForm rj r && got == wants.getD j []) with
+    | some j => some s!"bad:isomer_ions_shared@pep{i}=pep{j}"
+    | none =>
+    match (List.range np).find? (fun j =>
+        let rj := rawsA.getD j blankRaw
+        j != i && rj.seq == r.seq && rj.mass == r.mass && !sameForm rj r && got == wants.getD j []) with
+    | some j => some s!"bad:isomer_ions_shared@pep{i}=pep{j}"
+    | none =>
     let foreign := got.filter (fun m => !want.contains m)
     match (List.range np).find? (fun j => j != i && foreign.any (fun m => (wants.getD j []).contains m)) with
     | some j => some s!"bad:ion_under_wrong_peptide@pep{i}<-pep{j}"
@@ -188,21 +211,28 @@ def specIdx (kinds : List Kind) (minIdx : Nat) (raws : List RawPep) (impl : List
   let np := raws.length
   -- 1. every fragment is tagged with an existing peptide
   if impl.any (fun f => f.1 ≥ np) then "bad:peptide_index_out_of_range" else
+  let groups := (groupByPep np impl).map (fun l => l.mergeSort leNat)
+  let wants := (raws.map (wantBits kinds minIdx)).toArray
+  -- fast path for long lists: every index holds, bit for bit, the definition for its own peptide
+  -- (lists of up to 64 peptides always go through the exact-arithmetic clauses as well)
+  if np > 64 && groups == wants then "ok" else
   -- 2. per peptide index, bit-exact against the definition for THAT peptide: recognisable shapes first
-  match perPeptide kinds minIdx raws impl with
+  match perPeptide kinds minIdx raws groups wants with
   | some s => s
   | none =>
   -- 3. per peptide: as many fragments as there are (kind, ordinal) pairs with min_ion_index < ordinal < n
+  let rawsA := raws.toArray
   let countBad := (List.range np).find? (fun i =>
-    let n := (raws.getD i blankRaw).seq.length
-    (impl.filter (fun f => f.1 == i)).length != kinds.length * (n - 1 - minIdx))
+    let n := (rawsA.getD i blankRaw).seq.length
+    (groups.getD i []).length != kinds.length * (n - 1 - minIdx))
   match countBad with
   | some i => s!"bad:count@pep{i}"
   | none =>
   -- 4./5. in exact arithmetic: nothing but the defined ions, and all of them
   let arith : Option String := (List.range np).findSome? (fun i =>
-    let r := raws.getD i blankRaw
-    let mine := (impl.filter (fun f => f.1 == i)).map (fun f => ratOfF32Bits f.2)
+    let r := rawsA.getD i blankRaw
+    if np > 64 && groups.getD i [] == wants.getD i [] then none else
+    let mine := (groups.getD i []).map ratOfF32Bits
     match r.toQ, allSome mine with
     | some p, some ms =>
       let n := r.seq.length
@@ -217,8 +247,7 @@ def specIdx (kinds : List Kind) (minIdx : Nat) (raws : List RawPep) (impl : List
   | some s => s
   | none =>
   -- 6. bit-exact, per peptide index: the multiset is the by-ordinal selection from that peptide's series
-  match (List.range np).find? (fun i =>
-      ((impl.filter (fun f => f.1 == i)).map (·.2)).mergeSort leNat != wantBits kinds minIdx (raws.getD i blankRaw)) with
+  match (List.range np).find? (fun i => groups.getD i [] != wants.getD i []) with
   | some i => s!"bad:content@pep{i}"
   | none => "ok"
 
@@ -308,7 +337,9 @@ def handle (op : String) (args impl : List String) : Option Reply :=
           let dep := blocks.any (fun tb => tb.2 != first)
           let depS := if dep then ":thread_dependent" else ""
           -- the content is judged against the CONFIGURED settings (request), pool size by pool size
-          match blocks.findSome? (fun tb =>
+          let distinct := blocks.foldl (fun (acc : List (Nat × List (Nat × Nat))) tb =>
+              if acc.any (fun a => a.2 == tb.2) then acc else acc ++ [tb]) []
+          match distinct.findSome? (fun tb =>
               let v := specIdx prm.ionKinds prm.minIonIndex raws tb.2
               if v == "ok" then none else some s!"{v}:threads{tb.1}") with
           | some v => v ++ depS
